@@ -50,7 +50,15 @@ endef
 
 $(foreach f,asu tsan plain,$(foreach e,$(ENGINES_seq),$(eval $(call ENGINE_RULE,$(e),$(f),seq,seq))))
 $(foreach f,asu tsan plain,$(foreach e,$(ENGINES_par),$(eval $(call ENGINE_RULE,$(e),$(f),par,par))))
-$(foreach f,asu tsan plain,$(foreach e,$(ENGINES_demo),$(eval $(call ENGINE_RULE,$(e),$(f),par,demo))))
+define DEMO_RULE
+$(B)/$(2)/e_demo_$(1): harness/e_demo.cpp $(REPO)/src/$(3).cpp $(HDRS) | cfg
+	@mkdir -p $(B)/$(2)
+	$(CXX) $(BASE) $$(FLAGS_$(2)) $$(INC_par) -DDEMO_KIND=$(4) -DDEMO_SRC='"$(REPO)/src/$(3).cpp"' -MF $(B)/$(2)/e_demo_$(1).d -o $$@ harness/e_demo.cpp $$(LIBS_demo)
+endef
+$(foreach f,asu tsan plain,$(eval $(call DEMO_RULE,mcb,$(f),mcb-dimacs,1)))
+$(foreach f,asu tsan plain,$(eval $(call DEMO_RULE,approx,$(f),approx-mcb-dimacs,2)))
+$(foreach f,asu tsan plain,$(eval $(call DEMO_RULE,stats,$(f),collection-stats-dimacs,3)))
+$(foreach f,asu tsan plain,$(eval $(call DEMO_RULE,mpi,$(f),mcb-dimacs-mpi,4)))
 
 -include $(wildcard $(B)/*/*.d)
 
